@@ -1340,6 +1340,36 @@ class _ExprInliner(ast.NodeTransformer):
             return None
         return conv(body)
 
+    def visit_Attribute(self, n):
+        """`self.<prop>` where <prop> is a property of the same class whose body is one
+        returned expression (assertions aside): the expression"""
+        self.generic_visit(n)
+        if not (isinstance(n.ctx, ast.Load) and isinstance(n.value, ast.Name)
+                and n.value.id == "self" and self.ci is not None
+                and not n.attr.startswith("__")):
+            return n
+        ak = self.m.resolve_attr_kind(self.ci.qn, n.attr)
+        if not ak or ak[0] != "property" or ak[2] is self.f or id(ak[2]) in self.active:
+            return n
+        tgt = ak[2]
+        if n.attr in getattr(self.m, "_inline_exclude", ()):
+            return n
+        body = [s_ for s_ in tgt.body if not isinstance(s_, ast.Assert) and not (
+            isinstance(s_, ast.Expr) and isinstance(s_.value, ast.Constant))]
+        if len(body) != 1 or not isinstance(body[0], ast.Return) or body[0].value is None:
+            return n
+        sp = tgt.args.args[0].arg if tgt.args.args else "self"
+        e = _cp(body[0].value)
+        if sp != "self":
+            class R_(ast.NodeTransformer):
+                def visit_Name(self, x):
+                    return ast.Name(id="self", ctx=x.ctx) if x.id == sp else x
+            e = R_().visit(e)
+        self.active.add(id(tgt))
+        e = self.visit(e)
+        self.active.discard(id(tgt))
+        return ast.copy_location(e, n)
+
     def visit_Call(self, n):
         self.generic_visit(n)
         tgt = self.m._private_target(n, self.f, self.mi, self.ci)
